@@ -51,6 +51,8 @@ Section Num.
   Hypothesis Hd_minus : memc 45%N digit = false.
   Hypothesis Hd_plus : memc 43%N digit = false.
   Notation evals := (evals g full).
+  Ltac nt := repeat (rewrite <- app_assoc || rewrite <- app_comm_cons).
+  Ltac nt_in H := repeat (rewrite <- app_assoc in H || rewrite <- app_comm_cons in H).
   Ltac rwa E := let H := fresh "Ea" in pose proof E as H; unfold chr, pstr in *; rewrite H; clear H.
 
   Definition plainW (i : nat) : Prop := nth_error g i = Some (mkNode (KWord digit digit 1 0) [] false WS [] true []).
@@ -190,18 +192,17 @@ Section Num.
     intros Hx Hn He Hr. pose proof Hn as (H0 & Hs & Hf & Hee). rewrite He in Hee. destruct Hee as (He0 & Hes & Hsg).
     pose proof (frac_premise n r Hn ltac:(intros E; congruence)) as Hfp.
     pose proof (int_follow n r ltac:(intros E; congruence)) as Hif.
-    unfold gnum_text in *. rewrite He in *. cbn [exp_text] in *.
+    unfold gnum_text in *. rewrite He in *. cbn [exp_text] in *. nt_in Hif. nt_in Hfp.
     eapply evals_eq.
     - eapply evals_node_ok; [exact Hsci|apply (pre_premise g full c WS Hc); repeat split|].
-      unfold pre_pos. cbn [ncallpre]. rewrite andb_true_r, Hx.
+      unfold pre_pos. cbn [ncallpre]. rewrite andb_true_r, Hx. nt.
       eapply impls_wrap; [reflexivity|reflexivity|].
       eapply evals_node_ok; [exact Hsa|cbn; reflexivity|].
       eapply impls_and; [reflexivity|reflexivity| |].
-      + cbn [app]. rewrite <- app_assoc.
-        apply (evals_word_plain g full c WS Hc w1 false true digit digit (g_i0 n) (g_is n) _ Hw1 H0 Hs Hif).
-      + eapply seqs_cons; [rewrite <- app_assoc; apply (ev_fracopt o1 a1 d1 w2 (g_frac n) _ Ho1 Ha1 Hd1 Hw2 Hfp)|].
-        eapply seqs_cons; [cbn [app]; apply (ev_plain_lit el 101%N _ Hel)|].
-        eapply seqs_cons; [rewrite <- app_assoc; cbn [app]; apply (ev_signopt os sm mi pl sg e0 (es ++ r) Hos Hsm Hmi Hpl Hsg He0)|].
+      + apply (evals_word_plain g full c WS Hc w1 false true digit digit (g_i0 n) (g_is n) _ Hw1 H0 Hs Hif).
+      + eapply seqs_cons; [apply (ev_fracopt o1 a1 d1 w2 (g_frac n) _ Ho1 Ha1 Hd1 Hw2 Hfp)|].
+        eapply seqs_cons; [apply (ev_plain_lit el 101%N _ Hel)|].
+        eapply seqs_cons; [apply (ev_signopt os sm mi pl sg e0 (es ++ r) Hos Hsm Hmi Hpl Hsg He0)|].
         eapply seqs_cons; [|apply seqs_nil].
         apply (evals_word_plain g full c WS Hc w3 true true digit digit e0 es r Hw3 He0 Hes Hr).
     - cbn [finish post nkind ntags add_tags fold_left]. unfold flat_strs. rewrite join_concat.
@@ -215,14 +216,13 @@ Section Num.
     intros Hx Hn He Hr. apply num_follow_elim in Hr as (Hr1 & Hr2 & Hr3). pose proof Hn as (H0 & Hs & Hf & _).
     pose proof (frac_premise n r Hn ltac:(intros _; split; assumption)) as Hfp.
     pose proof (int_follow n r ltac:(intros _; assumption)) as Hif.
-    unfold gnum_text in *. rewrite He in *. cbn [exp_text app] in *.
+    unfold gnum_text in *. rewrite He in *. cbn [exp_text app] in *. nt_in Hif. nt_in Hfp.
     eapply evals_node_fail; [exact Hsci|apply (pre_premise g full c WS Hc); repeat split|].
-    unfold pre_pos. cbn [ncallpre]. rewrite andb_true_r, Hx.
+    unfold pre_pos. cbn [ncallpre]. rewrite andb_true_r, Hx. nt. cbn [app].
     eapply impls_wrap; [reflexivity|reflexivity|].
     eapply evals_node_fail; [exact Hsa|cbn; reflexivity|].
     eapply impls_and; [reflexivity|reflexivity| |].
-    - cbn [app]. rewrite <- app_assoc.
-      apply (evals_word_plain g full c WS Hc w1 false true digit digit (g_i0 n) (g_is n) _ Hw1 H0 Hs Hif).
+    - apply (evals_word_plain g full c WS Hc w1 false true digit digit (g_i0 n) (g_is n) _ Hw1 H0 Hs Hif).
     - eapply seqs_cons; [apply (ev_fracopt o1 a1 d1 w2 (g_frac n) _ Ho1 Ha1 Hd1 Hw2 Hfp)|].
       apply seqs_fail. apply (ev_plain_lit_fail el true 101%N r Hel Hr3).
   Qed.
@@ -235,15 +235,14 @@ Section Num.
     intros Hx Hn He Hr1 Hr2. pose proof Hn as (H0 & Hs & Hf & _).
     pose proof (frac_premise n r Hn ltac:(intros _; split; assumption)) as Hfp.
     pose proof (int_follow n r ltac:(intros _; assumption)) as Hif.
-    unfold gnum_text in *. rewrite He in *. cbn [exp_text app] in *.
+    unfold gnum_text in *. rewrite He in *. cbn [exp_text app] in *. nt_in Hif. nt_in Hfp.
     eapply evals_eq.
     - eapply evals_node_ok; [exact Hflt|apply (pre_premise g full c WS Hc); repeat split|].
-      unfold pre_pos. cbn [ncallpre]. rewrite andb_true_r, Hx.
+      unfold pre_pos. cbn [ncallpre]. rewrite andb_true_r, Hx. nt. cbn [app].
       eapply impls_wrap; [reflexivity|reflexivity|].
       eapply evals_node_ok; [exact Hfa|cbn; reflexivity|].
       eapply impls_and; [reflexivity|reflexivity| |].
-      + cbn [app]. rewrite <- app_assoc.
-        apply (evals_word_plain g full c WS Hc fw1 false true digit digit (g_i0 n) (g_is n) _ Hfw1 H0 Hs Hif).
+      + apply (evals_word_plain g full c WS Hc fw1 false true digit digit (g_i0 n) (g_is n) _ Hfw1 H0 Hs Hif).
       + eapply seqs_cons; [|apply seqs_nil].
         apply (ev_fracopt fo fa3 fd fw2 (g_frac n) _ Hfo Hfa3 Hfd Hfw2 Hfp).
     - cbn [finish post nkind ntags add_tags fold_left]. unfold flat_strs. rewrite join_concat.
